@@ -62,16 +62,16 @@ type Failure struct {
 }
 
 type Result struct {
-	Stats           map[string]int    `json:"stats"`
-	BySignature     map[string]int    `json:"by_signature"`
-	Failures        []Failure         `json:"failures"`       // first few per signature
-	Conformance     []map[string]any  `json:"conformance"`    // real token string differs from the spec's although the property holds
-	NotReproduced   []map[string]any  `json:"not_reproduced"` // spec says the property fails, the real response is fine
-	DriverErrors    []string          `json:"driver_errors"`
-	Samples         []map[string]any  `json:"samples"`
-	Notes           map[string]string `json:"notes"`
-	mu              sync.Mutex
-	perSig          map[string]int
+	Stats         map[string]int    `json:"stats"`
+	BySignature   map[string]int    `json:"by_signature"`
+	Failures      []Failure         `json:"failures"`       // first few per signature
+	Conformance   []map[string]any  `json:"conformance"`    // real token string differs from the spec's although the property holds
+	NotReproduced []map[string]any  `json:"not_reproduced"` // spec says the property fails, the real response is fine
+	DriverErrors  []string          `json:"driver_errors"`
+	Samples       []map[string]any  `json:"samples"`
+	Notes         map[string]string `json:"notes"`
+	mu            sync.Mutex
+	perSig        map[string]int
 }
 
 var result = &Result{Stats: map[string]int{}, BySignature: map[string]int{}, perSig: map[string]int{}, Notes: map[string]string{}}
